@@ -534,6 +534,27 @@ func init() {
 			delete(fr.i.locks.held, mu)
 			return nil
 		},
+		"(*sync.RWMutex).RLock": func(fr *frame, args []value) value {
+			mu := args[0].(*value)
+			if fr.i.sched != nil {
+				fr.i.sched.current().wantsRead = true
+				fr.i.sched.rlock(mu)
+				fr.i.sched.current().wantsRead = false
+			}
+			fr.i.locks.heldR[mu]++
+			return nil
+		},
+		"(*sync.RWMutex).RUnlock": func(fr *frame, args []value) value {
+			mu := args[0].(*value)
+			if fr.i.locks.heldR[mu] <= 0 {
+				panic("fatal error: sync: RUnlock of unlocked RWMutex")
+			}
+			fr.i.locks.heldR[mu]--
+			if fr.i.sched != nil {
+				fr.i.sched.runlock(mu)
+			}
+			return nil
+		},
 		ndPath + ".Par": ndPar,
 		ndPath + ".Track": func(fr *frame, args []value) value {
 			fr.i.locks.track(args[0].(iface).v, 0)
@@ -563,6 +584,8 @@ func init() {
 	} {
 		externals[k] = v
 	}
+	externals["(*sync.RWMutex).Lock"] = externals["(*sync.Mutex).Lock"]
+	externals["(*sync.RWMutex).Unlock"] = externals["(*sync.Mutex).Unlock"]
 	delete(externals, "strconv.Atoi")
 	externals["strconv.Atoi"] = extAtoi
 }
